@@ -8,7 +8,7 @@ Extracted (everything else must match the known shape exactly, otherwise Untrans
     what happens to an undeclared keyword / positional argument (strict / not strict, `self` exemption);
     the handler table around signature.bind_partial; the decision list of the unused-parameter loop
   * wrapper / async_wrapper: per ReturnAs mode the sequence of call-convention steps
-  * _as_args: arrival order on unknown key / signature order otherwise"""
+  * _as_args: arrival order on unknown key (old shape, before d10af45) / signature order otherwise"""
 import ast
 from common import *
 
@@ -289,6 +289,9 @@ AS_ARGS_HEAD = '''
 params = inspect.signature(func).parameters
 has_var_keyword = any(p.kind == p.VAR_KEYWORD for p in params.values())
 '''
+AS_ARGS_HEAD_PLAIN = '''
+params = inspect.signature(func).parameters
+'''
 AS_ARGS_IF_FULL = '''
 if any(p.kind == p.VAR_POSITIONAL for p in params.values()) \\
         or (not has_var_keyword and any(k not in params for k in result)):
@@ -320,6 +323,10 @@ def tr_as_args(f):
             return True, True
         if same(body[2], AS_ARGS_IF_VARPOS):
             return False, True
+    # since d10af45: no has_var_keyword, arrival order only for a var-positional parameter
+    if len(body) >= 2 and same_block(body[:1], AS_ARGS_HEAD_PLAIN) and same(body[1], AS_ARGS_IF_VARPOS) \
+            and same_block(body[2:], AS_ARGS_TAIL):
+        return False, True
     bad('_as_args: unrecognised shape')
 
 
